@@ -73,11 +73,24 @@ PIECES = ["x", " ", "|", "é", "\\n", "\\t", "%%", "%s", "%f", "%v", "%5s", "%-5
           "%-05s|", "%-03f|", "%-012v|", "%-007s|", "%-0v|", "%00s", "%-00005f|", "%010s|", "%-10v|", "%2s%-3s|"]
 
 
+FLAGS = "0-+ #"
+WIDTHS = ["", "0", "3", "5", "05", "12", "-4", "00"]
+
+
+def flag_strings(maxlen):
+    out = [""]
+    level = [""]
+    for _ in range(maxlen):
+        level = [p + c for p in level for c in FLAGS]
+        out += level
+    return out
+
+
 class C18(Check):
     pid = "C18"
     props = ["C18_printf.v"]
     rule = ("format strings assembled from a palette of literal runs and directives (every width form, %%, dangling %, "
-            "unknown letters, limits) x argument lists of all value kinds (too few / too many / wrong kind); program prints a "
+            "unknown letters, limits; every ordering and repetition of the characters 0 - + space # before a width) x argument lists of all value kinds (too few / too many / wrong kind); program prints a "
             "marker before and after the printf; non-trivial = the format contains a directive with a width")
 
     def generate(self, rng, tier):
@@ -105,6 +118,29 @@ class C18(Check):
             prog = "BEGIN { print \"A\"\n printf(%s%s%s%s)\n print \"Z\" }" % (q, fmt, q, src_args)
             nontrivial = bool(re.search(r"%-?[0-9]+[sfv]", fmt))
             cases.append(Case("p%d" % k, simple_run("p%d" % k, prog), {"prog": prog, "fmt": fmt, "args": repr(args)}, nontrivial))
+        # every ordering and repetition of the flag characters of other printf dialects in front of the width: %0-5s %-05s %00-3f %--5s %+5s ...
+        # (only `-` directly followed by digits, or digits, is a width; anything else after the % is an unknown directive)
+        quick = tier == "quick"
+        specs = []
+        for fl in flag_strings(2 if quick else 3):
+            for w in WIDTHS:
+                for d in (rng.sample(["s", "f", "v"], 2) if quick else ["s", "f", "v", "%", "", "d"]):
+                    specs.append(fl + w + d)
+        if quick:
+            for fl in rng.sample([f for f in flag_strings(4) if len(f) >= 3], 160):
+                specs.append(fl + rng.choice(WIDTHS) + rng.choice(["s", "f", "v", "s", "f", "v", "%", ""]))
+        for k, spec in enumerate(specs):
+            d = spec[-1:] if spec[-1:] in "sfv" else ""
+            arg = {"s": rng.choice(["ab", "", "é", "hello world"]), "f": rng.choice([1, -2.5, 0, 123456789]), "v": rng.choice([[1, "a"], "ab", 7, None]),
+                   "": rng.choice(["ab", 1])}[d]
+            args = [arg] if rng.random() < 0.9 else rng.choice([[], [arg, arg]])
+            fmt = rng.choice(["[", "", "x"]) + "%" + spec + rng.choice(["]", "|", "", "]%s"])
+            if fmt.endswith("%s"):
+                args = args + ["t"]
+            src_args = "".join(", " + pyref.literal(a) for a in args)
+            prog = "BEGIN { print \"A\"\n printf(\"%s\"%s)\n print \"Z\" }" % (fmt, src_args)
+            cases.append(Case("fl%d" % k, simple_run("fl%d" % k, prog), {"prog": prog, "fmt": fmt, "args": repr(args), "family": "flag orderings"},
+                              len(spec) >= 3))
         return cases
 
     def oracle(self, case, impl):
